@@ -186,3 +186,39 @@ ax("Union-of-types-not-none", L.FA(_sq, z3.Implies(z3.And(L.len_(_sq) >= 1, L.FA
                                                    TY.Union_(_sq) != L.NONE), [TY.Union_(_sq)]))
 ax("wf-rw-not-none-kinds", L.FA(_t, z3.Implies(z3.Or(*[TY.kind(_t) == TY.K[k_] for k_ in TY.KINDS if k_ != "Other"]), _t != L.NONE), [TY.kind(_t)]))
 ax("wf-rw-not-none", z3.Not(wf_rw(L.NONE)))
+
+# ---- C06 deep invariant: every anonymous TypedDict node inside t has between 1 and k keys in total (k <= 0: there is none)
+td_okd = declare_pred("td_okd", L.V, L.I, L.B)
+_kk = L.const("rkk", L.I)
+_tdsize = lambda x: L.len_(TY.td_req(x)) + L.len_(TY.td_opt(x))
+ax("tdok-td", L.FA([_t, _kk], z3.Implies(z3.And(td_okd(_t, _kk), TY.kind(_t) == TY.K["TD"]), z3.And(_tdsize(_t) >= 1, _tdsize(_t) <= _kk)), [td_okd(_t, _kk)]))
+ax("tdok-td-fields", L.FA([_t, _kk, _k], z3.Implies(z3.And(td_okd(_t, _kk), TY.kind(_t) == TY.K["TD"]),
+                                                    z3.And(z3.Implies(L.has(TY.td_req(_t), _k), td_okd(L.get(TY.td_req(_t), _k), _kk)),
+                                                           z3.Implies(L.has(TY.td_opt(_t), _k), td_okd(L.get(TY.td_opt(_t), _k), _kk)))),
+                           [(td_okd(_t, _kk), L.get(TY.td_req(_t), _k)), (td_okd(_t, _kk), L.get(TY.td_opt(_t), _k))]))
+ax("tdok-args", L.FA([_t, _kk, _i], z3.Implies(z3.And(td_okd(_t, _kk), TY.has_args(_t), 0 <= _i, _i < L.len_(TY.args(_t))), td_okd(L.nth(TY.args(_t), _i), _kk)),
+                     [(td_okd(_t, _kk), L.nth(TY.args(_t), _i))]))
+# introduction rules
+ax("tdok-consts", L.FA(_kk, z3.And(td_okd(TY.ANY, _kk), td_okd(TY.CALLABLE, _kk), td_okd(TY.ELLIPSIS, _kk), td_okd(TY.NONETYPE, _kk)), [td_okd(TY.ANY, _kk)]))
+ax("tdok-consts2", L.FA(_kk, td_okd(TY.CALLABLE, _kk), [td_okd(TY.CALLABLE, _kk)]))
+ax("tdok-consts3", L.FA(_kk, td_okd(TY.ELLIPSIS, _kk), [td_okd(TY.ELLIPSIS, _kk)]))
+ax("tdok-class", L.FA([_t, _kk], z3.Implies(TY.kind(_t) == TY.K["Class"], td_okd(_t, _kk)), [td_okd(_t, _kk)]))
+for _nm, _ctor in (("List", TY.List_), ("Set", TY.Set_), ("Iterator", TY.Iterator_), ("Type", TY.Type_), ("TupleVar", TY.TupleVar_)):
+    ax("tdok-" + _nm, L.FA([_a, _kk], z3.Implies(td_okd(_a, _kk), td_okd(_ctor(_a), _kk)), [td_okd(_ctor(_a), _kk)]))
+for _nm, _ctor in (("Dict", TY.Dict_), ("DefaultDict", TY.DefaultDict_)):
+    ax("tdok-" + _nm, L.FA([_a, _b, _kk], z3.Implies(z3.And(td_okd(_a, _kk), td_okd(_b, _kk)), td_okd(_ctor(_a, _b), _kk)), [td_okd(_ctor(_a, _b), _kk)]))
+ax("tdok-Generator", L.FA([_a, _b, _c, _kk], z3.Implies(z3.And(td_okd(_a, _kk), td_okd(_b, _kk), td_okd(_c, _kk)), td_okd(TY.Generator_(_a, _b, _c), _kk)), [td_okd(TY.Generator_(_a, _b, _c), _kk)]))
+_allok = lambda sq_, k_: L.FA(_i, z3.Implies(z3.And(0 <= _i, _i < L.len_(sq_)), td_okd(L.nth(sq_, _i), k_)), [L.nth(sq_, _i)])
+ax("tdok-Tuple", L.FA([_sq, _kk], z3.Implies(_allok(_sq, _kk), td_okd(TY.Tuple_(_sq), _kk)), [td_okd(TY.Tuple_(_sq), _kk)]))
+ax("tdok-Union", L.FA([_sq, _kk], z3.Implies(z3.And(L.len_(_sq) >= 1, _allok(_sq, _kk)), td_okd(TY.Union_(_sq), _kk)), [td_okd(TY.Union_(_sq), _kk)]))
+_allfok = lambda d_, k_: L.FA(_k, z3.Implies(L.has(d_, _k), td_okd(L.get(d_, _k), k_)), [L.get(d_, _k)])
+ax("tdok-TD", L.FA([_a, _b, _kk], z3.Implies(z3.And(L.len_(_a) + L.len_(_b) >= 1, L.len_(_a) + L.len_(_b) <= _kk, _allfok(_a, _kk), _allfok(_b, _kk)), td_okd(TY.TD_(_a, _b), _kk)),
+                   [td_okd(TY.TD_(_a, _b), _kk)]))
+ax("tdok-subscript", L.FA([_a, _sq, _kk], z3.Implies(_allok(_sq, _kk), td_okd(TY.subscript(_a, _sq), _kk)), [td_okd(TY.subscript(_a, _sq), _kk)]))
+
+
+@spec("forall_int")
+def _forall_int(ip, a, kw):
+    clo = a[0]
+    vs = [L.fresh(x.arg, L.I) for x in clo.node.args.args]
+    return ZB(z3.ForAll(vs, as_bool(ip.call_closure(clo, [ZI(v) for v in vs]))))
